@@ -144,6 +144,10 @@ func schemas() []named {
 		{"DiscriminatedUnion(zz,[Object])", "du", types.DiscriminatedUnion("zz", []any{obj})},
 		{"LazyAny(String())", "lazy", types.LazyAny(func() any { return types.String() })},
 		{"LazyAny(nil)", "lazy", types.LazyAny(func() any { return nil })},
+		{"LazyAny(String()).Optional().Default(\"d\")", "lazy", types.LazyAny(func() any { return types.String() }).Optional().Default("d")},
+		{"LazyAny(String()).Default(\"d\")", "lazy", types.LazyAny(func() any { return types.String() }).Default("d")},
+		{"Record(String(),String().Optional().NonOptional())", "record", types.Record(types.String(), types.String().Optional().NonOptional())},
+		{"Struct[withIface]()", "struct", types.Struct[withIface]()},
 		{"LazyAny(Object)", "lazy", types.LazyAny(func() any { return obj })},
 		{"recursive Object{next:Lazy,v:Int}", "lazy", rec},
 		{"Slice[any](Map(String(),Record(String(),Union([Nil(),Slice[any](Any())]))))", "nested",
